@@ -41,6 +41,46 @@ def g1_compressed_specials(rng):
     out.append(("all ones", b"\xff" * 48))
     return out
 
+# ---- BLS12-381 G1 in affine coordinates (input generation only) ----
+R381 = 0x73eda753299d7d483339d80809a1d80553bda402fffe5bfeffffffff00000001
+def g1_add(P_, Q_):
+    if P_ is None: return Q_
+    if Q_ is None: return P_
+    (x1, y1), (x2, y2) = P_, Q_
+    if x1 == x2:
+        if (y1 + y2) % P381 == 0: return None
+        l = 3 * x1 * x1 * pow(2 * y1, -1, P381) % P381
+    else:
+        l = (y2 - y1) * pow(x2 - x1, -1, P381) % P381
+    x3 = (l * l - x1 - x2) % P381
+    return (x3, (l * (x1 - x3) - y1) % P381)
+def g1_neg(P_): return None if P_ is None else (P_[0], (-P_[1]) % P381)
+def g1_mul(k, P_):
+    acc = None
+    while k:
+        if k & 1: acc = g1_add(acc, P_)
+        P_ = g1_add(P_, P_); k >>= 1
+    return acc
+def g1_random_curve_point(rng):
+    x = rng.randrange(P381)
+    while True:
+        rhs = (pow(x, 3, P381) + 4) % P381
+        y = pow(rhs, (P381 + 1) // 4, P381)
+        if y * y % P381 == rhs: return (x, y)
+        x = (x + 1) % P381
+def g1_torsion_point(rng):
+    """a non-identity point of the cofactor part of E(Fp): [r]Q for a random curve point Q"""
+    while True:
+        T = g1_mul(R381, g1_random_curve_point(rng))
+        if T is not None: return T
+MONT = (1 << 384) % P381
+def g1_raw(P_):
+    """97-byte raw commit-key encoding: Montgomery limbs of x and y, little-endian, infinity flag"""
+    return (P_[0] * MONT % P381).to_bytes(48, "little") + (P_[1] * MONT % P381).to_bytes(48, "little") + b"\x00"
+def g1_unraw(b):
+    inv = pow(MONT, -1, P381)
+    return (int.from_bytes(b[:48], "little") * inv % P381, int.from_bytes(b[48:96], "little") * inv % P381)
+
 def scalar_specials():
     return [("r (non-canonical)", R.to_bytes(32, "little")), ("r+1", (R + 1).to_bytes(32, "little")),
             ("2^256-1", b"\xff" * 32), ("2^255", (1 << 255).to_bytes(32, "little"))]
